@@ -1688,6 +1688,93 @@ def check_any_categories(ctx, tu):
                           key='%s|rkcommon/utility/Any.h|Any::handle|holder-of-any' % R)
 
 
+
+# ============================================================================================
+#  R-C09-13: an Optional source of any value category is copied by the copy / move / converting constructors
+#  R-C09-14: the holder base of Any, through which payloads are deleted, has a virtual destructor
+# ============================================================================================
+def check_optional_categories(ctx, tu):
+    R = 'R-C09-13'
+    ctx.describe(R, 'constructing an Optional<T> from an Optional lvalue, const lvalue or rvalue (same or convertible payload) resolves to a '
+                    'constructor that takes an Optional, never to one that takes the payload or is built from arbitrary arguments (a bool payload '
+                    'is constructible from an Optional through `explicit operator bool`: the copy would hold has_value() of the source)')
+    fs = [f for f in tu.functions.values() if f['q'] == 'rkverif::optional_value_categories']
+    if len(fs) != 1 or tu.body(fs[0]) is None:
+        ctx.broken('%s: driver function rkverif::optional_value_categories not found' % R)
+        return
+    n = 0
+    for x in tu.walk(tu.body(fs[0])):
+        if x.get('kind') != 'CXXConstructExpr' or not (tu.sd(x).get('rec') == OPT or tu.sd(x).get('q', '').startswith(OPT)):
+            continue
+        par = tu.par(x)
+        while par is not None and par.get('kind') in ('ExprWithCleanups', 'MaterializeTemporaryExpr', 'CXXBindTemporaryExpr', 'ImplicitCastExpr'):
+            par = tu.par(par)
+        if par is None or par.get('kind') != 'VarDecl':
+            continue
+        n += 1
+        callee = tu.callee_fn(x)
+        what = '%s %s(...)' % (par.get('type', {}).get('qualType', '').replace('rkcommon::utility::', ''), par.get('name'))
+        if callee is None or not callee.get('params'):
+            ctx.undecided(R, what, 'constructor not resolved', tu.loc(x))
+            continue
+        p0 = callee['params'][0]['ct']
+        p0n = p0.replace('rkcommon::utility::', '').strip()
+        # a declared copy / move / converting constructor takes `const Optional<U> &` or `Optional<U> &&`; a non-const lvalue reference to an
+        # Optional is what a forwarding (Args &&...) constructor deduces for an lvalue source
+        takes_optional = bool(re.match(r'^const Optional<.*> ?&$', p0n) or re.match(r'^Optional<.*> ?&&$', p0n) or
+                              re.match(r'^const Optional<.*> ?&&$', p0n))
+        if takes_optional and len(callee['params']) == 1:
+            ctx.ok(R, what, 'resolves to %s' % callee['fty'].replace('rkcommon::utility::', ''), tu.loc(x))
+        else:
+            ctx.violation(R, what, 'for this source overload resolution selects `%s %s`, a constructor that takes the payload / arbitrary arguments, '
+                          'not an Optional: the source wrapper is converted to the payload type (for bool through `explicit operator bool`), so '
+                          'the new Optional is always engaged and holds has_value() of the source instead of its value' % (
+                              callee['q'].replace('rkcommon::utility::', ''), callee['fty'].replace('rkcommon::utility::', '')), tu.loc(x),
+                          key='%s|rkcommon/utility/Optional.h|Optional|payload-constructor-selected-for-optional' % R)
+    ctx.floor(R, n, 8, 'constructions in rkverif::optional_value_categories')
+    ctx.ok(R, 'observation', 'assignment `a = b` from a NON-const Optional lvalue does not compile on the pinned tree (the forwarding `operator=(U &&)` '
+           'is the better match and its static_assert rejects an Optional): a compile-time refusal, no silent misbehaviour, so the driver only '
+           'constructs', 'rkcommon/utility/Optional.h', nontrivial=False)
+
+
+def check_holder_destructor(ctx, tu):
+    R = 'R-C09-14'
+    ctx.describe(R, 'Any owns its payload through a pointer to the holder base class and deletes it through that pointer: the base class has a '
+                    'virtual destructor, so the holder and the payload of every type are destroyed')
+    rec = None
+    for r in tu.records.values():
+        if r['q'] == ANY:
+            rec = r
+    if rec is None:
+        ctx.broken('%s: record %s not found' % (R, ANY))
+        return
+    ptrs = [f for f in rec['fields'] if (ANY + '::') in f['ct'] and ('unique_ptr' in f['ct'] or 'shared_ptr' in f['ct'] or f['ct'].rstrip().endswith('*'))]
+    if len(ptrs) != 1:
+        ctx.ok(R, 'Any', 'not decided here (holder member not identified)', 'rkcommon/utility/Any.h', nontrivial=False)
+        return
+    m = re.search(re.escape(ANY) + r'::(\w+)', ptrs[0]['ct'])
+    base = m.group(1)
+    defs = [n for n in tu.nodes.values() if n.get('kind') == 'CXXRecordDecl' and n.get('name') == base and n.get('completeDefinition')
+            and (tu.par(n) or {}).get('name') == 'Any']
+    if len(defs) != 1:
+        ctx.undecided(R, 'Any::' + base, 'definition of the holder base not found (%d candidates)' % len(defs), 'rkcommon/utility/Any.h')
+        return
+    d = defs[0]
+    dt = [x for x in d.get('inner', []) if x.get('kind') == 'CXXDestructorDecl']
+    virt = any(x.get('virtual') for x in dt)
+    derived = [r for r in tu.records.values() if (r.get('tmpl') or '').startswith(ANY + '::') and r.get('tmpl') != ANY + '::' + base and r.get('targs')]
+    inst = 'Any::%s (holder member `%s`)' % (base, ptrs[0]['name'])
+    if virt:
+        ctx.ok(R, inst, 'virtual destructor; %d holder instantiation(s) derive from it in this unit' % len(derived), tu.loc(d))
+    elif 'shared_ptr' in ptrs[0]['ct']:
+        ctx.ok(R, inst, 'not decided here (shared_ptr records the deleter of the object it was created with)', tu.loc(d), nontrivial=False)
+    else:
+        ctx.violation(R, inst, 'the holder is deleted through a pointer to `%s`, whose destructor is not virtual: the destructor of the derived '
+                      'holder - and with it the payload destructor - never runs (undefined behaviour); strings, vectors and every other '
+                      'payload owning a resource are leaked each time an Any is destroyed, re-assigned or reset' % base,
+                      tu.loc(d) if tu.loc(d) != '?' else 'rkcommon/utility/Any.h',
+                      key='%s|rkcommon/utility/Any.h|Any::%s|non-virtual-destructor' % (R, base))
+
 # ============================================================================================
 #  R-C09-10: members of Any that mirror the holder are written wherever the holder is
 # ============================================================================================
@@ -1806,6 +1893,8 @@ def run(ctx):
     check_optional_init_style(ctx, tu)
     check_any(ctx, tu)
     check_any_categories(ctx, tu)
+    check_optional_categories(ctx, tu)
+    check_holder_destructor(ctx, tu)
     check_any_mirrors(ctx, tu)
     check_demangle(ctx)
     if ctx.tier == 'thorough':
